@@ -39,7 +39,10 @@ SpelledOf(sh) == IF Len(sh) = 1
                  ELSE {<<SpellPoly(sh[1], s), SpellPoly(sh[2], t)>> :
                          s \in {x \in RingSpellings(Len(sh[1])) : HashSp(x) % (MS * 3) = 0},
                          t \in {x \in RingSpellings(Len(sh[2])) : HashSp(x) % (MS * 3) = 1}}
-AreaCases == UNION {{[kind |-> "shape", base |-> sh, spelled |-> sp] : sp \in SpelledOf(sh)} : sh \in BaseShapes}
+(* members reversed as a whole (each member stays consistent in itself, the members wind in different directions) *)
+WholeRev(pg, r) == [i \in 1..Len(pg) |-> Spell(pg[i], [rev |-> r, k |-> 0, closed |-> TRUE])]
+MemberRevs(sh) == IF Len(sh) # 2 THEN {} ELSE {<<WholeRev(sh[1], a), WholeRev(sh[2], b)>> : a \in BOOLEAN, b \in BOOLEAN}
+AreaCases == UNION {{[kind |-> "shape", base |-> sh, spelled |-> sp] : sp \in MemberRevs(sh)} : sh \in BaseShapes} \cup UNION {{[kind |-> "shape", base |-> sh, spelled |-> sp] : sp \in SpelledOf(sh)} : sh \in BaseShapes}
 
 (* paths with integer segment lengths, and query points *)
 Steps == {<<3, 4>>, <<4, 3>>, <<-3, 4>>, <<5, 12>>, <<6, -8>>, <<7, 0>>, <<0, 5>>, <<-4, -3>>, <<0, -2>>, <<8, 6>>}
